@@ -45,6 +45,8 @@ pub fn small() -> Vec<RVal> {
         arr(vec![]),
         mixed_array(25),
         obj(vec![("k", RVal::Int(1)), ("size", s("own"))]),
+        // at least two objects: property comparators actually run
+        arr(vec![obj(vec![("k", RVal::Int(2))]), obj(vec![("k", RVal::Int(1))]), obj(vec![("j", RVal::Int(1))])]),
         RVal::Empty,
     ]
 }
